@@ -15,3 +15,4 @@ void use()
     hep::mpi_multi_channel(MPI_COMM_WORLD, hep::make_multi_channel_integrand<double>(fm, 1, map, 1, 1), calls);
 }
 }
+template class hep::mpi_callback<hep::plain_chkpt_with_rng<std::mt19937, double>>;
